@@ -183,6 +183,14 @@ def rule_eof_before_use(prog, fixture=False):
                             continue
                         # clean end: needs a justification among the facts at the return
                         just = _clean_end_justified(fn, g, ret)
+                        if isinstance(just, tuple):
+                            # "nothing consumed yet" is only a justification if the flag is cleared before the
+                            # next time it is consulted, on every path that consumed a byte
+                            if _consumed_while_flag_set(prog, fn, just[1], ret, set(vars_)):
+                                problem = "end of input leads to a success return (%s) justified by the flag `%s`, but " \
+                                          "some path consumes input and comes back here without clearing the flag: a " \
+                                          "file cut short there is accepted as complete" % (fn.loc(ret), just[2])
+                            continue
                         if not just:
                             problem = "end of input leads to a success return (%s) without a clean-end justification " \
                                       "(nothing consumed yet / end marker already recognised)" % fn.loc(ret)
@@ -226,6 +234,73 @@ def _is_nothing_consumed_flag(fn, g, ref):
     return True
 
 
+def _consumed_while_flag_set(prog, fn, did, ret, getc_vars):
+    """True if the return `ret` can be reached with the nothing-consumed flag `did` still set although a byte has
+    been consumed: may-analysis over the CFG.  State (dirty, before): dirty = a byte may have been consumed since
+    the flag was last cleared (or since entry); before = dirty as it was ahead of the most recent getc, which is
+    what holds on that getc's EOF edge (a getc that returns EOF consumed nothing)."""
+    cfg = fn.cfg
+    reach = cfg.reachable()
+    consuming = set()
+    for f in prog.functions.values():
+        if any(_callee(n) in INPUTS for n in f.walk()):
+            consuming.add(f.key)
+
+    def step(st, x):
+        # "C": the flag has been cleared (it is never set again: _is_nothing_consumed_flag) - nothing to track
+        c = _callee(x)
+        if c in GETC:
+            return {e if e == "C" else (True, e[0]) for e in st}
+        if c in INPUTS or (x.get("k") == "CallExpr" and x.get("fn") in consuming):
+            return {e if e == "C" else (True, True) for e in st}
+        if x.get("k") in ("BinaryOperator", "CompoundAssignOperator") and x.get("op") in flow.ASSIGN_OPS and \
+                strip_all(x["c"][0]).get("d") == did:
+            return {"C"}
+        return st
+
+    def edge(p, s, st):
+        b = cfg.blocks[p]
+        if b.get("cond") is None or len(cfg.succ[p]) != 2:
+            return st
+        cond = fn.nodes.get(b["cond"])
+        outcome = True if cfg.succ[p][0] == s else False
+        if cfg.succ[p][0] == cfg.succ[p][1]:
+            return st
+        for f in atomise(cond, outcome):
+            if f[0] == "C" and f[2] == "==" and folded(f[3]) == -1:
+                l = strip_all(f[1])
+                if l.get("k") == "DeclRefExpr" and l.get("d") in getc_vars:
+                    return {e if e == "C" else (e[1], e[1]) for e in st}
+        return st
+    inn = {b: set() for b in cfg.blocks}
+    inn[cfg.entry] = {(False, False)}
+    work = [cfg.entry]
+    outs = {}
+    while work:
+        b = work.pop()
+        st = set(inn[b])
+        for x in flow.element_nodes(fn, b):
+            st = step(st, x)
+        outs[b] = st
+        for s_ in cfg.succ[b]:
+            if s_ < 0 or s_ not in reach:
+                continue
+            ns = edge(b, s_, st)
+            if not ns <= inn[s_]:
+                inn[s_] |= ns
+                work.append(s_)
+    where = fn.where()
+    pos = where.get(ret["i"])
+    if pos is None:
+        return False
+    st = set(inn[pos[0]])
+    for e in cfg.blocks[pos[0]]["e"][:pos[1]]:
+        x = fn.nodes.get(e) if isinstance(e, int) else None
+        if x is not None:
+            st = step(st, x)
+    return any(e != "C" and e[0] for e in st)
+
+
 def _clean_end_justified(fn, g, ret):
     fs = g.at(ret)
     if fs is None:
@@ -235,7 +310,7 @@ def _clean_end_justified(fn, g, ret):
         if k[0] == "T" and k[2] is True:
             n = strip_all(g.rep[k][1])
             if n.get("k") == "DeclRefExpr" and _is_nothing_consumed_flag(fn, g, n):
-                return "nothing consumed"
+                return ("nothing consumed", n["d"], n.get("n"))
             if n.get("k") == "CallExpr" and _callee(n) == "expect_char":
                 return "end marker recognised"
         if k[0] == "C" and k[2] == "==":
@@ -875,4 +950,5 @@ SELFTESTS = [
     (rule_extension_needs_byte, ["c09_bad.c"], ["c09_good.c"], "handle_ext"),
     (rule_eof_before_use, ["c09_bad.c"], ["c09_good.c"], "c:width"),
     (rule_every_file_decoded, ["c09_files_bad.c"], ["c09_files_good.c"], "all_files"),
+    (rule_eof_before_use, ["c09_flag_bad.c"], ["c09_flag_good.c"], "eof-edge"),
 ]
